@@ -16,8 +16,9 @@ func init() {
 		"(R5) verifyAddChain errs when validation or the precert test errs or the leaf kind differs from the endpoint's; add-chain / add-pre-chain pass false / true; "+
 		"(R6) chain building: a candidate already in the chain, a failed CheckSignatureFrom or a failed isValid adds nothing; arguments unswapped; roots come from opts.Roots, intermediates from opts.Intermediates; every chain added extends the current chain; "+
 		"(R7) isValid: NameMismatch iff name checks on ∧ chain non-empty ∧ child.RawIssuer ≠ RawSubject; an intermediate without valid CA basic constraints never yields nil; CheckSignatureFrom: parent-not-CA and no-certSign rejections, nil only via parent.CheckSignature(alg, RawTBSCertificate, Signature); "+
-		"(R8) checkSignature returns nil only as the verdict of rsa.VerifyPSS/PKCS1v15 or behind the true edge of dsa/ecdsa/ed25519.Verify over the key, the (hashed) signed bytes and the signature; key type ≠ algorithm ⇒ error. "+
-		"NOT covered: the iff over all hierarchies (Verify's candidate search by AuthorityKeyId/name, EKU nesting), signature mathematics, certificate parsing, the HTTP status of a rejection (C08).",
+		"(R8) checkSignature returns nil only as the verdict of rsa.VerifyPSS/PKCS1v15 or behind the true edge of dsa/ecdsa/ed25519.Verify over the key, the (hashed) signed bytes and the signature; key type ≠ algorithm ⇒ error; "+
+		"(R10) 'expired' (and 'inside the NotAfter window') is judged at the time of the submission — no stale clock: the long-lived cells that ValidateChain's comparisons of instants read (found on the comparisons themselves: the configured current time, the window bounds, and transitively every field / global that feeds them) are never written with a sample of a clock that outlives the call that took it: every store to such a cell anywhere in the module (composite literals, constructors, package initialisers, assignments through a pointer held in the field) is followed back through copies, arithmetic, callees' results, parameters (to every call site) and interface calls (to the module's implementations) to time.Now / Since / Until / timers; a sample is accepted only in a struct that is a temporary of the call that read the clock (local, only read or handed to readers, returned along the call sites the sample came down, not consumed in a loop that does not read the clock again); with ValidateChain:wall-clock-by-default / configured-time-used (R1) the instant compared is then configuration or a clock read made during that call; (R5) correspondingly the options handed to ValidateChain are the log's own, or a per-call copy in which only a zero current time is replaced by a clock read of that call. "+
+		"NOT covered: the iff over all hierarchies (Verify's candidate search by AuthorityKeyId/name, EKU nesting), signature mathematics, certificate parsing, the HTTP status of a rejection (C08); for R10: clocks that enter other than through package time (file times, HTTP Date headers, database time), samples carried through channels, reflection, unsafe or struct conversions, values parked in containers of library types; whether a CONFIGURED fixed time is sensible (a deployment that configures one freezes time by choice).",
 		runC02)
 }
 
@@ -101,6 +102,10 @@ func runC02(r *Run) {
 	// R9: the configured forbidden-extension list reaches the filter intact
 	r.Rule("C02.R9")
 	c02ParseOIDs(r)
+
+	// R10: no clock sample is stored into the long-lived state the temporal filters read (rules_t7c02clock.go)
+	r.Rule("C02.R10")
+	noStaleClock(r, []clkFilter{{"trillian/ctfe.ValidateChain", 3}})
 }
 
 func c02ValidateChain(r *Run, fn *ssa.Function) {
@@ -379,7 +384,7 @@ func c02VerifyAddChain(r *Run, fn *ssa.Function) {
 		return
 	}
 	r.ExpectArg(v, "verifyAddChain:submitted-chain", 0, "p1.Chain")
-	r.ExpectArg(v, "verifyAddChain:log-options", 1, "p0.validationOpts")
+	c02LogOptions(r, fn, v) // p0.validationOpts, or a per-call copy of it (rules_t7c02clock.go)
 	r.ExpectArg(p, "verifyAddChain:kind-of-validated-leaf", 0, "trillian/ctfe.ValidateChain(*)#0[0]")
 	r.ErrorsGate(fn, "verifyAddChain:errors", "trillian/ctfe.*", 2)
 	isPre := r.D.D(CallResult(p, 0))
